@@ -255,10 +255,14 @@ func (db *Backend) PutObject(bucketName, objectName string, meta map[string]stri
 		return result, err
 	}
 
-	if meta == nil {
-		// a caller of the Go API with no metadata to store; the merge below writes into the map
-		meta = map[string]string{}
+	// The map is the caller's, who may go on using it (for the next upload,
+	// say): the object keeps a copy. It may also be nil, and the merge below
+	// writes into it.
+	own := make(map[string]string, len(meta))
+	for k, v := range meta {
+		own[k] = v
 	}
+	meta = own
 	err = gofakes3.MergeMetadata(db, bucketName, objectName, meta)
 	if err != nil {
 		return result, err
